@@ -6,7 +6,7 @@
 use std::collections::HashSet;
 
 pub trait Sys: Sized {
-    type Ev: Clone + Send + Sync + std::fmt::Debug;
+    type Ev: Clone + Send + Sync + std::fmt::Debug + serde::Serialize;
     /// events enabled in this state (small finite menu)
     fn enabled(&self) -> Vec<Self::Ev>;
     /// apply one event to the real system (and the monitors)
@@ -81,8 +81,11 @@ pub fn bfs<S: Sys>(
                         }
                         s
                     };
+                    // (context for a verdict issued from the panic hook when the subject aborts the process)
+                    crate::util::set_case_ctx(Some(serde_json::json!({"history_before": hist, "event": ev}).to_string()));
                     s.apply(&ev);
                     s.settle();
+                    crate::util::set_case_ctx(None);
                     out.push((ev, s.fingerprint(), s.verdicts(), s.witnesses()));
                 }
                 out
